@@ -243,6 +243,11 @@ class MultiMatcher(mcore.Matcher):
         return max(m.max_quality() for m in self.matchers[self.current:])
 
     def block_quality(self):
+        if not self.is_active():
+            # The binary matchers re-read the block quality of a sub-matcher
+            # right after skipping it, also when that exhausted it; posting
+            # readers still answer then, so this matcher must not raise
+            return 0
         return self.matchers[self.current].block_quality()
 
     def skip_to_quality(self, minquality):
